@@ -114,7 +114,8 @@ def catalogue(tier):
 STATES_QUICK = [("full", False), ("full", True), ("dbonly", False), ("none", False), ("dbonly", True), ("none", True)]
 # the failing statement runs on the session's long-lived cursor, which earlier began a transaction (with a multi-step
 # statement inside it) that was then ended through the CONNECTION's commit() / rollback(), not through that cursor
-STATES_ENDED = [("full", "commit()"), ("full", "rollback()")]
+# ... or by a COMMIT that the engine rejected (two transactions inserted the same primary key): the transaction is over
+STATES_ENDED = [("full", "commit()"), ("full", "rollback()"), ("full", "failed_commit")]
 STATES_MORE = [("full_min", False), ("full_min", True)]
 
 
@@ -140,7 +141,20 @@ def build(state):
         conn = fs.connect()
     c = conn.cursor()
     c.execute("set myvar = 5")
-    if tx in ("commit()", "rollback()"):
+    if tx == "failed_commit":
+        cur.execute("create table db1.s1.pk (k int primary key)")
+        c.execute("begin")
+        c.execute("insert into db1.s1.t values (50, 'pending')")
+        c.execute("insert into db1.s1.pk values (1)")
+        c.execute("create table db1.s1.made_in_tx (v varchar(3)) comment = 'c'")
+        cur.execute("begin")
+        cur.execute("insert into db1.s1.pk values (1)")
+        cur.execute("commit")
+        try:
+            c.execute("commit")
+        except Exception:  # noqa: BLE001  (the engine enforces the key at commit; the transaction is rolled back)
+            pass
+    elif tx in ("commit()", "rollback()"):
         c.execute("begin")
         c.execute("insert into db1.s1.t values (50, 'pending')")
         c.execute("create table db1.s1.made_in_tx (v varchar(3)) comment = 'c'")
@@ -177,7 +191,7 @@ def expand(item, acc: core.Acc, tier):
         acc.violation("C07.later_sessions_unaffected", f"setup_of_a_new_instance_fails,exc={type(e).__name__}", {"error": str(e)[:200], "state": state, "note": "needs the earlier items of the same worker process to reproduce"}, {"state": state, "stmts": stmts})
         return
     ended = tx if isinstance(tx, str) else None
-    pending_visible = bool(tx) and ended != "rollback()"
+    pending_visible = bool(tx) and ended not in ("rollback()", "failed_commit")
     tx = bool(tx) and ended is None  # is a transaction of the user open while the failing statement runs
     try:
         cur = conn._verif_cursor if ended else conn.cursor()  # noqa: SLF001
